@@ -726,6 +726,18 @@ def main():
             kind, site = why, props.site_of(sc)
         res = {"verdict": "violation", "kind": kind, "site": site or props.site_of(sc), "detail": text[:2500], "seed": sd, "idx": idx, "class": sc.get("class")}
         if why == "hang":
+            # idle without CPU and no honeytrap goroutine waiting for a lock: the process sat in the operating system
+            # (seen: fsync of the file channel on a disk busy with other work).  Only if the scenario does the same
+            # alone in a fresh process is it the scenario's doing - and then still infrastructure, not a verdict.
+            again = run_single(prop, sc, tier, binpath=w.binpath, extra_env=(w.extra_env if w.wid >= 100 else None))
+            if again.get("verdict") in ("ok", "violation"):
+                log("note: worker idle at idx=%s did not repeat alone (verdict %s); not attributed" % (idx, again.get("verdict")))
+                UNATTRIBUTED.append(res)
+                if again.get("verdict") == "violation":
+                    for v in violations_of(again):
+                        if match_known(known, v, sc) is None:
+                            add_cand(v, sc, race=(w.wid >= 100))
+                continue
             infra("worker hung without using CPU at %s idx=%s seed=%s: %s" % (prop, idx, sd, text[-800:]))
         e = match_known(known, res, sc)
         if e is not None:
